@@ -8,6 +8,12 @@ also holds four tiny boards whose open cells do not number a multiple of five (n
 Answer keys (fixed order): one border flag per pair of orthogonally adjacent open cells, in the order in which the module
 builds its graph: cells row-major, for each open cell first the pair (cell, cell below), then the pair (cell, cell to the
 right); True = the two cells lie in different regions.
+
+Large family (shape ("large", h, w, holes)): boards of 20 .. 36 cells (4x5 .. 6x6, 2x10, 1x15 ..) with dense clue sets
+derived from divisions.  tilings() lists the divisions as an exact cover: every pentomino (connected five-cell set of open
+cells, bit mask) is filed under its first cell in row-major order, the first uncovered cell is always covered next, and a
+clue is checked on the pentomino itself (the number of borders of a cell depends on nothing but its own region).
+selftest() compares it with pentomino_partitions() + clue filter.
 """
 
 import itertools
@@ -72,6 +78,246 @@ def pentomino_partitions(h, w, holes):
     return out
 
 
+# ---- large boards: exact cover on bit masks --------------------------------------------------------
+_PIECES = {}
+
+
+def pieces(h, w, holes):
+    """cell index -> list of bit masks of the connected five-cell sets of open cells whose smallest cell index it is."""
+    key = (h, w, tuple(holes))
+    if key in _PIECES:
+        return _PIECES[key]
+    hs = set(holes)
+    is_open = [(i // w, i % w) not in hs for i in range(h * w)]
+    nb = []
+    for i in range(h * w):
+        y, x = i // w, i % w
+        m = 0
+        for dy, dx in ((0, 1), (1, 0), (0, -1), (-1, 0)):
+            yy, xx = y + dy, x + dx
+            if 0 <= yy < h and 0 <= xx < w and is_open[yy * w + xx]:
+                m |= 1 << (yy * w + xx)
+        nb.append(m)
+    out = {}
+    for c in range(h * w):
+        if not is_open[c]:
+            continue
+        found = []
+        above = ~((1 << (c + 1)) - 1)  # only cells after c
+
+        def grow(cur, size, banned):
+            if size == 5:
+                found.append(cur)
+                return
+            front = 0
+            m = cur
+            while m:
+                b = m & -m
+                m ^= b
+                front |= nb[b.bit_length() - 1]
+            front &= above & ~cur & ~banned
+            bn = banned
+            while front:
+                b = front & -front
+                front ^= b
+                grow(cur | b, size + 1, bn)
+                bn |= b
+
+        grow(1 << c, 1, 0)
+        out[c] = found
+    _PIECES[key] = (out, nb)
+    return _PIECES[key]
+
+
+def tilings(h, w, prob):
+    """All divisions of the open cells into pentominoes that obey the clues, as bytes `region number per cell index`
+    (255 for a hole)."""
+    holes = tuple((y, x) for y in range(h) for x in range(w) if prob[y][x] == -2)
+    pcs, nb = pieces(h, w, holes)
+    nopen = h * w - len(holes)
+    if nopen % 5:
+        return []
+    clues = [(y * w + x, prob[y][x]) for y in range(h) for x in range(w) if prob[y][x] >= 0]
+
+    def fits(pm):
+        for c, v in clues:
+            if pm >> c & 1 and 4 - bin(nb[c] & pm).count("1") != v:
+                return False
+        return True
+
+    allowed = {c: [pm for pm in lst if fits(pm)] for c, lst in pcs.items()}
+    full = 0
+    for c in pcs:
+        full |= 1 << c
+    out = []
+    chosen = []
+
+    def rec(rest):
+        if not rest:
+            lab = bytearray([255] * (h * w))
+            for r, pm in enumerate(chosen):
+                m = pm
+                while m:
+                    b = m & -m
+                    m ^= b
+                    lab[b.bit_length() - 1] = r
+            out.append(bytes(lab))
+            return
+        c = (rest & -rest).bit_length() - 1
+        for pm in allowed[c]:
+            if pm & rest == pm:
+                chosen.append(pm)
+                rec(rest ^ pm)
+                chosen.pop()
+
+    rec(full)
+    return out
+
+
+def full_clues(h, w, lab):
+    """The complete clue grid of a division (region number per cell index, 255 = hole)."""
+    pr = [[-2] * w for _ in range(h)]
+    for i, r in enumerate(lab):
+        if r == 255:
+            continue
+        y, x = i // w, i % w
+        same = 0
+        for dy, dx in ((0, 1), (1, 0), (0, -1), (-1, 0)):
+            yy, xx = y + dy, x + dx
+            if 0 <= yy < h and 0 <= xx < w and lab[yy * w + xx] == r:
+                same += 1
+        pr[y][x] = 4 - same
+    return pr
+
+
+_FREE = {}
+
+
+def free_tilings(h, w, holes):
+    key = (h, w, tuple(holes))
+    if key not in _FREE:
+        prob = [[-1] * w for _ in range(h)]
+        for y, x in holes:
+            prob[y][x] = -2
+        _FREE[key] = tilings(h, w, prob)
+    return _FREE[key]
+
+
+def _picks(n, count):
+    """count indices spread evenly over range(n), first and last included."""
+    if n <= count:
+        return list(range(n))
+    return sorted(set(round(i * (n - 1) / (count - 1)) for i in range(count)))
+
+
+def _dense_variants(full, rich, heavy=False):
+    """Clue grids derived from a complete one: itself, every k-th clue blanked, one clue changed by one (in the complete
+    grid and in the half-blanked one)."""
+    h, w = len(full), len(full[0])
+    cells = [(y, x) for y in range(h) for x in range(w) if full[y][x] >= 0]
+    m = len(cells)
+
+    def build(blank=None, change=None):
+        g = [list(r) for r in full]
+        for j, (y, x) in enumerate(cells):
+            if blank and j % blank[0] == blank[1]:
+                g[y][x] = -1
+        if change:
+            y, x = cells[change[0] % m]
+            g[y][x] = full[y][x] + (change[1] if full[y][x] + change[1] >= 0 else 1)
+        return g
+
+    out = [build()]
+    for b in ([(2, 0), (2, 1), (3, 0), (3, 1), (5, 4), (4, 2)] if rich else ([(3, 0)] if heavy else [(2, 1), (3, 0)])):
+        out.append(build(blank=b))
+    spots = [(0, 1), (m - 1, -1), (m // 2, 1)]
+    if rich:
+        spots += [(0, -1), (m - 1, 1), (m // 2, -1), (w - 1, 1), (m - w, -1), (m // 2 + w // 2, 1), (m // 4, -1), (3 * m // 4, 1)]
+    for c in spots:
+        out.append(build(change=c))
+    for c in ([(1, 1), (m - 2, -1), (m // 2 + 1, -1), (m // 2 - 1, 1)] if rich else [(m - 2, -1)]):
+        out.append(build(blank=(2, 0), change=c))  # odd positions survive the blanking
+    res = []
+    for g in out:
+        if g not in res:
+            res.append(g)
+    return res
+
+
+LARGE_QUICK = [(5, 5), (4, 5), (5, 4), (2, 10), (10, 2), (1, 15), (15, 1), (5, 6), (6, 5)]
+LARGE_THOROUGH = [(3, 10), (10, 3), (1, 20), (20, 1), (6, 6, 5, 5), (6, 6, 2, 3), (6, 6, 0, 0), (5, 7), (7, 5), (3, 7, 2, 6), (7, 3, 6, 2), (4, 4, 3, 3)]
+
+
+def large_instances(h, w, holes, rich):
+    seen = set()
+    for p in _large_instances(h, w, holes, rich):
+        key = repr(p)
+        if key not in seen:
+            seen.add(key)
+            yield p
+
+
+def _large_instances(h, w, holes, rich):
+    def inst(g):
+        return {"height": h, "width": w, "problem": [list(r) for r in g]}
+
+    def single(y, x, v):
+        g = [[-1] * w for _ in range(h)]
+        for hy, hx in holes:
+            g[hy][hx] = -2
+        if v is None:
+            return inst(g)
+        if g[y][x] == -2:
+            return None
+        g[y][x] = v
+        return inst(g)
+
+    heavy = h * w >= 25  # one solve of a sparsely clued board costs 1-2 s from here on
+    if rich or h * w < 30:
+        yield single(0, 0, None)  # clue-free
+    # single clues on the last row / last column / far corner, values up to the impossible 4 and 5
+    fy, fx = h - 1, w - 1
+    if (fy, fx) in holes:
+        fx -= 1
+    singles = [(fy, fx, 4)]
+    if rich:
+        singles += [(fy, fx, 3 if min(h, w) > 1 else 2)]
+    if rich:
+        singles += [(fy, fx, 5), (fy, fx, 2), (fy, w // 2, 1), (h // 2, fx if fy == h - 1 and fx == w - 1 else w - 1, 2), (fy, w // 2, 3), (h // 2, w // 2, 0), (h // 2, w // 2, 4)]
+    for y, x, v in singles:
+        p = single(y, x, v)
+        if p is not None:
+            yield p
+    divs = free_tilings(h, w, holes)
+    if rich:
+        idx = _picks(len(divs), 3 if h * w >= 30 else 6)
+    else:
+        idx = _picks(len(divs), 4)[1:3] if (h, w) == (5, 5) else _picks(len(divs), 3)[1:2]
+        if not idx and divs:
+            idx = [0]
+    for i in idx:
+        for g in _dense_variants(full_clues(h, w, divs[i]), rich, heavy):
+            yield inst(g)
+
+
+def selftest():
+    """tilings() == pentomino_partitions() + clue filter: all hole placements of the small boards, clue-free and with every
+    single clue / a sample of double clues."""
+    rule = Fivecells()
+    cases = 0
+    for h, w, nh in [(1, 5, 0), (5, 1, 0), (1, 6, 1), (2, 3, 1), (3, 2, 1), (2, 5, 0), (5, 2, 0), (3, 4, 2), (4, 3, 2), (2, 6, 2), (4, 4, 1), (3, 5, 0), (5, 3, 0), (2, 2, 0)]:
+        for shape_cap in (120,):
+            for k, p in enumerate(rule.instances((h, w, nh), 12000 if h * w < 12 else 1500)):
+                if h * w >= 12 and k % 7:
+                    continue
+                a = sorted(rule._readings_small(p))
+                b = sorted(rule._readings_large(p))
+                assert a == b, (p, len(a), len(b))
+                cases += 1
+    assert len(free_tilings(5, 5, ())) == 4006 and len(free_tilings(2, 10, ())) == 45
+    return cases
+
+
 class Fivecells(base.Rule):
     name = "fivecells"
 
@@ -80,9 +326,18 @@ class Fivecells(base.Rule):
         s = [(1, 1, 0), (1, 2, 0), (2, 1, 0), (2, 2, 0), (1, 5, 0), (5, 1, 0), (1, 6, 1), (6, 1, 1), (2, 3, 1), (3, 2, 1), (2, 5, 0), (5, 2, 0)]
         if tier != "quick":
             s += [(3, 4, 2), (4, 3, 2), (2, 6, 2), (6, 2, 2), (4, 4, 1), (3, 5, 0), (5, 3, 0), (1, 10, 0), (10, 1, 0)]
+        s += [("large",) + b for b in LARGE_QUICK]
+        if tier != "quick":
+            s += [("large",) + b for b in LARGE_THOROUGH]
         return s
 
     def instances(self, shape, cap):
+        if shape[0] == "large":
+            h, w = shape[1], shape[2]
+            holes = tuple((shape[i], shape[i + 1]) for i in range(3, len(shape), 2))
+            for p in large_instances(h, w, holes, cap > 1000):
+                yield p
+            return
         h, w, nh = shape
         cells = [(y, x) for y in range(h) for x in range(w)]
         placements = list(itertools.combinations(range(h * w), nh))
@@ -112,6 +367,37 @@ class Fivecells(base.Rule):
         return is_sat, base.sols_of(is_border)
 
     def readings(self, p):
+        if p["height"] * p["width"] >= 20:
+            return [self._readings_large(p)]
+        return [self._readings_small(p)]
+
+    def _readings_large(self, p):
+        h, w, prob = p["height"], p["width"], p["problem"]
+        is_open = [[prob[y][x] != -2 for x in range(w)] for y in range(h)]
+        edges = [(a[0] * w + a[1], b[0] * w + b[1]) for a, b in edge_list(h, w, is_open)]
+        clues = [(y, x, prob[y][x]) for y in range(h) for x in range(w) if prob[y][x] >= 0]
+        if len(clues) > 2:
+            labs = tilings(h, w, prob)
+        else:
+            # nearly clue-free: filter the (cached) list of all divisions instead of searching again
+            holes = tuple((y, x) for y in range(h) for x in range(w) if prob[y][x] == -2)
+            labs = []
+            for lab in free_tilings(h, w, holes):
+                ok = True
+                for y, x, v in clues:
+                    same = 0
+                    for dy, dx in ((0, 1), (1, 0), (0, -1), (-1, 0)):
+                        yy, xx = y + dy, x + dx
+                        if 0 <= yy < h and 0 <= xx < w and lab[yy * w + xx] == lab[y * w + x]:
+                            same += 1
+                    if 4 - same != v:
+                        ok = False
+                        break
+                if ok:
+                    labs.append(lab)
+        return [tuple(lab[a] != lab[b] for a, b in edges) for lab in labs]
+
+    def _readings_small(self, p):
         h, w, prob = p["height"], p["width"], p["problem"]
         holes = tuple((y, x) for y in range(h) for x in range(w) if prob[y][x] == -2)
         is_open = [[prob[y][x] != -2 for x in range(w)] for y in range(h)]
@@ -135,7 +421,7 @@ class Fivecells(base.Rule):
                     break
             if ok:
                 out.append(tuple(part[a] != part[b] for a, b in edges))
-        return [out]
+        return out
 
     def example(self):
         prob = [[-1, 2, 3, -1, -1], [-1, -1, -1, -1, -1], [-1, -1, 2, 1, -1], [-1, 3, -1, -1, -1], [-1, -1, -1, -1, 3]]
